@@ -85,7 +85,7 @@ def base_recipes(ctx, emitted):
         if dim == 1:
             recipes += c19.line_recipes(rng, axes[0], 1)
             continue
-        stride = (3 if dim == 2 else 9) if q else (2 if dim == 2 else 4)
+        stride = (4 if dim == 2 else 12) if q else (2 if dim == 2 else 4)
         if k % stride != 1:
             continue
         base = dict(kind="tensor", axes=axes, cart=True)
@@ -93,7 +93,7 @@ def base_recipes(ctx, emitted):
         if r["cells"] * (2 if dim == 2 else 6) <= 12:
             recipes += c19.variants(rng, dict(kind="simplex", axes=axes), 1)
     fixed = c19.fixed_recipes(rng, True)
-    recipes += fixed if not q else fixed[::3]
+    recipes += fixed if not q else fixed[::4]
     return recipes
 
 
@@ -112,7 +112,6 @@ def judge(ctx, items, tag):
         r = rec["recipe"]
         ops = tuple(o["op"] + ("/swap" if o.get("swap") else "") for o in r.get("ops", []))
         m = rec["motion"]
-        embedded = r["base"]["kind"] != "prism" and len(c["a"]["vol"]) > 0
         ctx.case(key=(r["base"]["kind"], r["base"].get("name", ""), len(c["a"]["vol"]), ops, m["q"]),
                  nontrivial=m["q"] > 1 or m["M"] != [[1, 0, 0], [0, 1, 0], [0, 0, 1]])
     for v in recs:
